@@ -2,11 +2,11 @@ package main
 
 import (
 	"fmt"
-	"runtime/debug"
 	"strings"
 	"time"
 
 	"src.elv.sh/pkg/parse"
+	"verif.local/harness/checks/c01/syn"
 )
 
 // Trace lines (see spec/ParseTree/TraceParseTree.tla). The walk uses only the public API:
@@ -84,41 +84,27 @@ func toInts(s string) []int {
 type walked struct {
 	events  []any // without the begin line's index (filled by the batcher)
 	crashed string
+	hung    bool   // the watchdog expired
+	skipped bool   // not parsed: inputs are no longer fed after the first non-terminations
+	state   string // goroutine state at expiry
 	nodes   int
 	tail    bool
 	nerrs   int
 }
 
 // parseAndWalk parses src with the real parser under recover and a watchdog and records the
-// pre-order walk of the returned tree.
+// pre-order walk of the returned tree. On expiry of the watchdog w.hung is set (the goroutine
+// keeps spinning: the caller must stop feeding inputs after a few of those).
 func parseAndWalk(src string, watchdog time.Duration) walked {
-	done := make(chan walked, 1)
-	go func() {
-		var w walked
-		defer func() {
-			if p := recover(); p != nil {
-				w = walked{crashed: fmt.Sprintf("panic: %v\n%s", p, firstLines(string(debug.Stack()), 12))}
-			}
-			done <- w
-		}()
-		w = walkTree(src)
-	}()
-	t := time.NewTimer(watchdog)
-	defer t.Stop()
-	select {
-	case w := <-done:
-		return w
-	case <-t.C:
-		return walked{crashed: fmt.Sprintf("parse.Parse did not return within %s", watchdog)}
+	var w walked
+	r := syn.Watch(watchdog, "walkTree", func() { w = walkTree(src) })
+	switch {
+	case !r.Finished:
+		return walked{hung: true, crashed: fmt.Sprintf("non-termination: parse.Parse did not return within %s (goroutine state: %s)", watchdog, r.State), state: r.State}
+	case r.Panic != "":
+		return walked{crashed: r.Panic}
 	}
-}
-
-func firstLines(s string, n int) string {
-	l := strings.SplitN(s, "\n", n+1)
-	if len(l) > n {
-		l = l[:n]
-	}
-	return strings.Join(l, "\n")
+	return w
 }
 
 func walkTree(src string) walked {
